@@ -1,8 +1,141 @@
 import FtDriver.Json
+import FtDriver.C03
 open Lean (Json)
 namespace FtDriver
 open Ft
 
-def handleC05 (_j : Json) : Except String Verdict := throw "C05: not implemented"
+/-- body actions, keyed by point (full point: leaf action; partial point: "skip" the nested loop) -/
+inductive Act | leave | assign (v : Int) | add (v : Int) | reset | skip
+  deriving Repr
+
+abbrev Acts := List (List Int × Act)
+
+def Acts.get (a : Acts) (p : List Int) : Option Act := (a.find? (fun e => e.1 == p)).map (·.2)
+
+def parseActs (j : Json) : Except String Acts := do
+  (← asList j).mapM (fun e => do
+    match (← asList e) with
+    | [p, code, v] => do
+      let p ← asInts p
+      let v ← v.getInt?
+      match (← code.getStr?) with
+      | "leave" => pure (p, Act.leave)
+      | "assign" => pure (p, Act.assign v)
+      | "add" => pure (p, Act.add v)
+      | "reset" => pure (p, Act.reset)
+      | "skip" => pure (p, Act.skip)
+      | s => throw s!"bad action {s}"
+    | _ => throw "bad action row")
+
+def leafAct (dflt : Int) (acts : Acts) (p : List Int) (cur aval : Int) : Int :=
+  match acts.get p with
+  | some .leave => cur
+  | some (.assign v) => v
+  | some (.add v) => cur + v
+  | some .reset => dflt
+  | some .skip => cur
+  | none => cur + aval          -- default body: z_ref += a_val
+
+/-- source elements presented by a compressed rank, with their storage position -/
+def presentPosT (dflt : Int) (d : Nat) (f : T (d + 1)) : Fib Int (Nat × T d) :=
+  (((show List (Int × T d) from f).zipIdx).filter (fun e => !isEmpty dflt d e.1.2)).map
+    (fun e => (e.1.1, (e.2, e.1.2)))
+
+structure LogRow where
+  point : List Int
+  cur : Json
+  apos : Nat
+
+/-- nested populate with the action table as loop body — an instance of `Ft.populate` at every level -/
+def popTree (dflt : Int) (acts : Acts) : (d : Nat) → List Int → T (d + 1) → T (d + 1) → T (d + 1) × List LogRow
+  | 0, pre, z, a =>
+    let r := populate dflt 0 (fun c cur (ap : Nat × T 0) => (leafAct dflt acts (pre ++ [c]) (show Int from cur) (show Int from ap.2) : Int))
+      z (presentPosT dflt 0 a)
+    (r.1, r.2.map (fun y => { point := pre ++ [y.1], cur := jInt (show Int from y.2.1), apos := y.2.2.1 }))
+  | d + 1, pre, z, a =>
+    let recurse (c : Int) : Bool := match acts.get (pre ++ [c]) with | some .skip => false | _ => true
+    let r := populate dflt (d + 1) (fun c cur (ap : Nat × T (d + 1)) =>
+        if recurse c then (popTree dflt acts d (pre ++ [c]) cur ap.2).1 else cur) z (presentPosT dflt (d + 1) a)
+    (r.1, r.2.flatMap (fun y =>
+      { point := pre ++ [y.1], cur := treeToJson (d + 1) y.2.1, apos := y.2.2.1 } ::
+      (if recurse y.1 then (popTree dflt acts d (pre ++ [y.1]) y.2.1 y.2.2.2).2 else [])))
+
+/-- independent spec: the leaf points the nested loops offer (in order), from the source alone -/
+def offered (dflt : Int) (acts : Acts) : (d : Nat) → List Int → T (d + 1) → List (List Int × Int)
+  | 0, pre, a => (present dflt 0 a).map (fun e => (pre ++ [e.1], (show Int from e.2)))
+  | d + 1, pre, a => (present dflt (d + 1) a).flatMap (fun e =>
+      match acts.get (pre ++ [e.1]) with
+      | some .skip => []
+      | _ => offered dflt acts d (pre ++ [e.1]) e.2)
+
+/-- paths (of every length ≥ 1) stored in a tree -/
+def paths : (d : Nat) → T d → List (List Int)
+  | 0, _ => []
+  | d + 1, f => (show List (Int × T d) from f).flatMap (fun e => [e.1] :: (paths d e.2).map (e.1 :: ·))
+
+/-- residue test: every stored path of `out` that is not stored in `z` leads to a non-default leaf /
+    a sub-fiber with at least one element -/
+def residueFree (dflt : Int) : (d : Nat) → T d → T d → Bool
+  | 0, _, _ => true
+  | d + 1, z, out =>
+    (show List (Int × T d) from out).all (fun e =>
+      match lookup (show List (Int × T d) from z) e.1 with
+      | some s => residueFree dflt d s e.2
+      | none =>
+        (match d, e.2 with
+         | 0, v => decide ((show Int from v) ≠ dflt)
+         | d' + 1, f => !(show List (Int × T d') from f).isEmpty) && residueFree dflt d (defaultTree dflt d) e.2)
+
+def handleC05 (j : Json) : Except String Verdict := do
+  let d ← fNat j "d"
+  let dflt := fIntD j "dflt" 0
+  let z ← fTree j "z" (d + 1)
+  let a ← fTree j "a" (d + 1)
+  let acts ← parseActs (← field j "acts")
+  if !wfB (d + 1) z || !wfB (d + 1) a then return { agree := true, spec := true, tags := ["OUT_OF_MODEL"] }
+  let impl ← field j "impl"
+  let zi ← fTree impl "z" (d + 1)
+  let yi ← fArr impl "yields"
+  let (mz, mlog) := popTree dflt acts d [] z a
+  -- agreement: final destination and the yielded sequence
+  let mlogJ := mlog.map (fun r => jList [jInts r.point, r.cur, jNat r.apos])
+  let agreeZ := treeEq (d + 1) mz zi
+  let agreeY := (jList mlogJ).compress == (jList yi).compress
+  -- independent spec on the implementation's observation
+  let off := offered dflt acts d [] a
+  let m0 : PMap := content dflt (d + 1) z
+  let mEnd : PMap := off.foldl (fun m pa => m.set pa.1 (leafAct dflt acts pa.1 (m.get dflt pa.1) pa.2)) m0
+  let specContent := decide ((content dflt (d + 1) zi : PMap) = mEnd.canon dflt)
+  let specWf := wfB (d + 1) zi
+  let specRes := residueFree dflt (d + 1) z zi
+  -- yields: the leaf rows of the implementation's log are exactly the offered points, in order,
+  -- each showing the destination's current value
+  let leafRows ← yi.filterMapM (fun r => do
+    match (← asList r) with
+    | [p, cur, _] => do
+      let p ← asInts p
+      if p.length == d + 1 then pure (some (p, (← cur.getInt?))) else pure none
+    | _ => throw "yield row")
+  -- current value seen at each offered point = value in the map before this point's own action
+  -- (points are distinct, so this is the initial map's value)
+  let expectRows := off.map (fun pa => (pa.1, m0.get dflt pa.1))
+  let specY := decide (leafRows = expectRows)
+  let why := (if !agreeZ then "destination differs from model; " else "") ++
+    (if !agreeY then "yield log differs from model; " else "") ++
+    (if !specContent then "content is not the previous content overridden by the writes; " else "") ++
+    (if !specWf then "destination not well-formed; " else "") ++
+    (if !specRes then "a created element was left behind at the default / without elements; " else "") ++
+    (if !specY then "offered coordinates/values are not the source's presented coordinates with the destination's current values; " else "")
+  let nz := (show List (Int × T d) from z).length
+  let tags := (if nz == 0 then ["z-empty"] else []) ++
+    (if off.any (fun pa => (clookup m0 pa.1).isSome) then ["overlap"] else []) ++
+    (if off.any (fun pa => (clookup m0 pa.1).isNone) then ["create"] else []) ++
+    (if !canonicalB dflt (d + 1) z then ["z-residue"] else []) ++
+    (if !canonicalB dflt (d + 1) a then ["a-residue"] else []) ++
+    (if (paths (d + 1) z).length + off.length > (paths (d + 1) zi).length + 0 && off.length > 0 then ["removed-some"] else []) ++
+    (if acts.any (fun e => match e.2 with | .reset => true | _ => false) then ["reset"] else []) ++
+    (if acts.any (fun e => match e.2 with | .skip => true | _ => false) then ["skip"] else [])
+  pure { agree := agreeZ && agreeY, spec := specContent && specWf && specRes && specY,
+         model := treeToJson (d + 1) mz, tags, why }
 
 end FtDriver
